@@ -139,6 +139,31 @@ CLAIMED = {
         note=BASE_NOTE + 'that real operations allocate fresh memory is observed, not proved; CPython finalisation order and the netCDF-C id allocator are modelled from observation.',
         technique='Lean 4 proof (invariant by induction over event histories) + generated guard table + model/implementation correspondence + purity/aliasing oracle',
         design='§7 C05'),
+    'C10': dict(
+        text=('Lean model of the IOAPI metadata state (NVARS, VAR-LIST, VAR, TFLAG width/rows, variables with dimension tuples, '
+              'NROWS/NCOLS/NLAYS, VGLVLS, SDATE/STIME/TSTEP, origins) with _add2Varlist, getVarlist, updatetflag, updatemeta '
+              'transcribed branch by branch and every operation (copy, sliceDimensions, subsetVariables, renameVariable, '
+              'applyAlongDimensions, eval, mask, stack, interpSigma) as the sequence of primitive calls the Python method makes. '
+              'Theorems: updatemeta is a normaliser (coherent_updatemeta); each of the nine operations maps a coherent state to a '
+              'coherent state (coherent_step) and so does every sequence of any length (coherent_run), for all states, provided a '
+              'variable stays listed; zero_listed_counterexample proves that side condition is real (recorded finding). '
+              'Correspondence: five kinds of source file x random operation sequences, the complete metadata state after every '
+              'step vs the model, plus the ten equalities evaluated on the real object. Six genuine defects repaired by fix: commits.'),
+        note=BASE_NOTE + 'variable data is outside this model; time flags restricted to years 1000-9999 (TimeOk hypothesis, datetime range); files with a CF time variable (GRIDDESC withcf) are judged by the oracle only; eval with single assignments.',
+        technique='Lean 4 proof (normaliser lemma + per-operation preservation, induction over operation sequences) + model/implementation correspondence + coherence oracle',
+        design='§7 C10'),
+    'C11': dict(
+        text=('Same Lean model as C10. Theorems for integer (positive/negative) and unit-stride slice windows of any size on any '
+              'grid: the selected indices are contiguous (window_contiguous); XORIG\' + j*XCELL\' = XORIG + (first+j)*XCELL for every '
+              'retained column, same for rows (origin_x, origin_y, exact rationals); VGLVLS\' has one more entry than layers and '
+              'equals the edges first..first+m of the source (levels_window); SDATE/STIME are the flag of the first selected step '
+              '(start_is_first_selected, using the calendar round-trip encJ(decJ f) = f proved for C12); the decoded times are the '
+              'selected sub-range of the source times (time_window_partial, side condition: number of listed variables unchanged, '
+              'checked on every case). Correspondence + independent oracle recomputing origin, edges, times and SDATE/STIME/TSTEP '
+              'from the source file. One genuine defect repaired (TSTEP of 24 h or more became 0).'),
+        note=BASE_NOTE + 'float32/float64 rounding of XORIG += k*XCELL is not modelled (dyadic cells in the correspondence); PERIM windows of boundary files only through C10.',
+        technique='Lean 4 proof (list/arith lemmas over Rat and Int, calendar round-trip) + model/implementation correspondence + independent oracle',
+        design='§7 C11'),
     'C06': dict(
         text=('Lean model of file arithmetic (pncbo), mask() and eval over nested arrays of optional rationals; theorems: '
               'for two arrays of one shape (any rank) every result cell is the operator applied to the operand cells at '
